@@ -415,6 +415,10 @@ func (r *TaskRunner) execute(ctx context.Context, t *task.Task, job *executor.Jo
 		// We disable this for memory reasons; as otherwise we had huge memory leaks in prunner because all content
 		// was stored in RAM.
 		_, err = exec.Execute(ctx, nextJob)
+		// A canceled execution is canceled, no matter how the command reacted to the interrupt (clean exit, exit status or kill)
+		if ctx.Err() != nil {
+			err = ctx.Err()
+		}
 		if err != nil {
 			if status, ok := executor.IsExitStatus(err); ok {
 				t.ExitCode = int16(status)
